@@ -1,6 +1,7 @@
 import ThruVerif.Driver.Util
 import ThruVerif.Gen.Geometry
 import ThruVerif.Driver.CodecCmd
+import ThruVerif.Driver.SendFileCmd
 /-!
 `tvdriver`: one case per input line, one result per output line. The same lines are given to the Go
 harness, which runs the real code; the orchestrator diffs the two outputs.
@@ -22,6 +23,8 @@ def handle (line : String) : String :=
   | "decall" :: ws => handleDecAll ws
   | "hdr" :: ws => handleHdr ws
   | "enchdr" :: ws => handleEncHdr ws
+  | "sf" :: ws => handleSf ws
+  | "sched" :: ws => handleSched ws
   | _ => "bad-op"
 
 partial def loop (h : IO.FS.Stream) (out : IO.FS.Stream) : IO Unit := do
